@@ -18,9 +18,15 @@ import mslread
 M32 = 1 << 32
 FUEL = 30000
 
-# option sets of lib/mslcorr.py: (index policy, buffer policy)
+# msl.Options sets (harness/cmd/msldrive): name -> (index policy, buffer policy)
 SETS = {"default": ("rzsw", "rzsw"), "v12_restrict": ("restrict", "restrict"),
         "v23_mixed": ("restrict", "rzsw"), "v30_mixed2": ("rzsw", "restrict")}
+OPTSETS = {
+    "default": {"name": "default"},                                   # msl.DefaultOptions(): every policy ReadZeroSkipWrite
+    "v12_restrict": {"name": "v12_restrict", "lang": [1, 2], "index": "restrict", "buffer": "restrict"},
+    "v23_mixed": {"name": "v23_mixed", "lang": [2, 3], "index": "restrict", "buffer": "rzsw", "loop_bound": False},
+    "v30_mixed2": {"name": "v30_mixed2", "lang": [3, 0], "index": "rzsw", "buffer": "restrict"},
+}
 
 
 class Batch:
@@ -97,15 +103,15 @@ def elem_layout(meta, T, ir):
     return None
 
 
-def byte_sizes(off, size, stride, quick):
-    """explicit buffer byte sizes: whole elements (1, 3, 6 elements) and ragged ends (a few bytes / one unpadded element more)"""
-    out = [off + stride * 3, off + stride * 1]
-    if size < stride:
-        out.append(off + stride * 2 + size)        # the last element without its padding
-    out.append(off + stride * 2 + 4)
+def byte_sizes(off, size, stride, quick, name="", seed=0):
+    """explicit buffer byte sizes: whole elements (3; 1 and 6 elements) and ragged ends (one unpadded element / a few bytes more)"""
+    out = [off + stride * 3]
+    out.append(off + stride * 2 + size if size < stride else off + stride * 2 + 4)     # ragged
+    if not quick or pick(name + "one", seed, 2):
+        out.append(off + stride * 1)
     if not quick:
-        out += [off + stride * 6, off + stride * 5 + 8]
-    return out
+        out += [off + stride * 2 + 4, off + stride * 6, off + stride * 5 + 8]
+    return sorted(set(out))
 
 
 def pick(name, seed, mod):
@@ -194,7 +200,7 @@ def queue_index(ctx, tools, enums, batch, quick):
         for variant in ("hostile", "restrict", "rzsw"):
             srcs[(name, variant)] = c15progs.expand(macro, variant)
     sets = list(SETS)
-    res_h = mslcorr.compile_programs(tools, [(n, srcs[(n, "hostile")]) for n, _m, _x in progs], sets)
+    res_h = mslcorr.compile_programs(tools, [(n, srcs[(n, "hostile")]) for n, _m, _x in progs], [OPTSETS[x] for x in sets])
     res_r = mslcorr.compile_programs(tools, [(n + "/" + v, srcs[(n, v)]) for n, _m, _x in progs for v in ("restrict", "rzsw")], [])
     cases = []
     for name, macro, meta in progs:
@@ -217,7 +223,7 @@ def queue_index(ctx, tools, enums, batch, quick):
         if meta["len"] == "rt" or (isinstance(meta["len"], list) and meta["len"][0] == "rt"):
             lay = elem_layout(meta, plan.T, plan.ir)
             hb, off, size, stride = lay
-            for B in byte_sizes(off, size, stride, quick):
+            for B in byte_sizes(off, size, stride, quick, name, ctx.seed):
                 n = 1 + (B - off - size) // stride
                 lens = [n] + (meta["len"][1:] if isinstance(meta["len"], list) else [])
                 variants.append((n, {"size%d" % hb: B}, lens, "bytes=%d elements=%d" % (B, n), (B - off) % stride != 0))
@@ -241,7 +247,9 @@ def queue_index(ctx, tools, enums, batch, quick):
                     amodel, epn = p
                     bad = illformed_atomics(amodel)
                     if bad:
-                        c["illformed"] = bad[0]
+                        import re
+                        ml = re.search(r"[^\n]*metal::atomic_\w+\(&[^\n,]*\?[^\n]*", c["text"])
+                        c["illformed"] = ml.group(0).strip() if ml else bad[0]
                         cases.append(c)
                         continue
                     c["ir"] = batch.ir(rplans[pol].ir_request(inp, FUEL), memo=(name, pol, vdesc, tup))
@@ -335,7 +343,7 @@ def judge_index(ctx, batch, cases):
 
 def queue_plain(ctx, tools, enums, batch, programs, sets, inputs_of, tag):
     """programs: [(name, src, meta)]; inputs_of(plan, name) -> list of inputs.  The IR of the program itself is the reference."""
-    res = mslcorr.compile_programs(tools, [(n, s) for n, s, _m in programs], sets)
+    res = mslcorr.compile_programs(tools, [(n, s) for n, s, _m in programs], [OPTSETS[x] for x in sets])
     cases = []
     for name, src, meta in programs:
         r = res.get(name) or {}
